@@ -136,6 +136,9 @@ class Ctx:
         differing = []
         for p in programs:
             a, b = impl.get(p, []), twin.get(p, [])
+            if a and a[-1].startswith("DONE ? "):
+                self.cov["implementation_died"] = self.cov.get("implementation_died", 0) + 1
+                continue        # reported through the oracle as an `abort` failure
             if a != b:
                 differing.append(p)
         self.cov["disagreements_checked"] += len(programs)
@@ -291,6 +294,10 @@ class Ctx:
                 if F.match(k, p, kind, outcome):
                     fid = k["id"]
                     break
+            if fid and kind == "abort":
+                # a dead process cannot equal the twin; the witness re-run decides whether it is the listed one
+                self.note_finding(fid)
+                continue
             if fid and p in differing:
                 # the program shows a listed defect AND a deviation from the twin: the failure cannot be
                 # told apart from the listed one, so it is not offered as the failing input; the
